@@ -215,7 +215,7 @@ def run(ctx):
         ctx, specs,
         rule="calling context x target flavour x outcome x arguments; sequences of 2-3 calls; "
              "one sleeping bystander per flavour; every schedule within the deviation bound; "
-             "non-trivial = more than one schedule executed",
+             "non-trivial = a schedule with at least one deviation from the default one (all explored schedules are distinct)",
         bounds={"deviation_bound": bound, "granularity": "synchronisation operations"},
         assumptions=["same-flavour execute from a coroutine and nested cross-flavour cycles "
                      "deadlock by construction and are not driven; an executed threading "
